@@ -162,6 +162,7 @@ fn note_depth(what: &str) {
 }
 
 pub static RAW_PJ: Mutex<Option<Vec<u8>>> = Mutex::new(None);
+pub static ODD_PATHS: std::sync::atomic::AtomicBool = std::sync::atomic::AtomicBool::new(false);
 pub static ERRNUL: std::sync::atomic::AtomicBool = std::sync::atomic::AtomicBool::new(false);
 pub static TRACK: std::sync::atomic::AtomicBool = std::sync::atomic::AtomicBool::new(false);
 
@@ -583,8 +584,12 @@ impl World {
     pub fn start_history(&mut self, name: &str) {
         let _hfs = HarnessFs::new();
         verif_reset_config();
-        let h = self.root.join(format!("h_{}", name));
+        let mut h = self.root.join(format!("h_{}", name));
         let _ = std::fs::remove_dir_all(&h);
+        if ODD_PATHS.load(std::sync::atomic::Ordering::SeqCst) {
+            // `paths odd`: the directories handed to shorebird_init contain spaces, an apostrophe and non-ASCII characters
+            h = h.join("st\u{f6}r age 'x \u{65e5}\u{672c}\u{8a9e}");
+        }
         self.storage = h.join("storage");
         self.cache = h.join("cache");
         self.base_path = h.join("libapp.so");
@@ -1100,6 +1105,9 @@ pub fn main(args: &[String]) -> i32 {
             "zdec" | "sig" | "num" => {}
             "http" => {
                 crate::http::start();
+            }
+            "paths" => {
+                ODD_PATHS.store(toks[1] == "odd", std::sync::atomic::Ordering::SeqCst);
             }
             "stall" => {
                 crate::sched::STALL.store(toks[1] == "on", std::sync::atomic::Ordering::SeqCst);
